@@ -9,6 +9,7 @@ Helper lemmas: `Proofs/C12/Lemmas.lean`.
 import Quanto.Calib
 import Proofs.C12.Lemmas
 import Proofs.Properties.C03
+import Proofs.C12.Streamline
 namespace Quanto
 
 /-- a single batch initialises the scale -/
@@ -162,6 +163,64 @@ theorem C12_single_batch_no_saturation (F : Fmt) (hF : WorkFmt F) (m : Rat) (qma
     ∀ x ∈ xs, |x| ≤ sq * qmax * (1 + 2 * F.u) + F.eta * qmax := by
   rw [C12_first_batch] at h
   exact C03_nonsaturating_clamped F hF qmax hq xs sq h
+
+
+/-! ### which modules keep quantized activations (streamlining) -/
+
+/-- T6: after any sequence of intercepted function calls, starting from the empty table, a module
+is marked "quantized activations required" exactly when some call took its output and returned a
+quantized tensor. -/
+theorem C12_streamline_required_iff (cs : List FnCall) (k : Nat) :
+    (recordCalls [] cs).get k = requiredBy cs k := by
+  rw [get_recordCalls]; simp [QActTable.get]
+
+/-- T6: the mark is monotone — once required, later calls (whatever they return) keep it. -/
+theorem C12_streamline_monotone (t : QActTable) (cs : List FnCall) (k : Nat) (h : t.get k = true) :
+    (recordCalls t cs).get k = true := by
+  rw [get_recordCalls, h]; rfl
+
+/-- T6: the children disabled at the end of the parent's forward are exactly its children that no
+call required — in particular the result does not depend on the order of the calls. -/
+theorem C12_streamline_disabled_iff (cs : List FnCall) (children : List Nat) (c : Nat) :
+    c ∈ disabledChildren (recordCalls [] cs) children ↔ c ∈ children ∧ requiredBy cs c = false := by
+  simp [disabledChildren, C12_streamline_required_iff]
+
+theorem C12_streamline_order_independent (cs cs' : List FnCall) (hp : cs.Perm cs') (children : List Nat) :
+    disabledChildren (recordCalls [] cs) children = disabledChildren (recordCalls [] cs') children := by
+  unfold disabledChildren
+  apply List.filter_congr
+  intro c _
+  rw [C12_streamline_required_iff, C12_streamline_required_iff]
+  unfold requiredBy
+  rw [hp.any_eq]
+
+/-- T6, the code as it is: `qinput = QTensor in types` tests the class `QTensor` itself.  The
+arguments quanto hands to torch functions are `QBytesTensor` / `QBitsTensor` instances, whose class
+is not `QTensor`: such calls record nothing, so that with streamlining every child that has
+quantized activations is disabled at the end of its parent's forward, whatever consumed its output. -/
+theorem C12_streamline_subclass_arguments_record_nothing (cs : List FnCall)
+    (h : ∀ c ∈ cs, "QTensor" ∉ c.types) (children : List Nat) :
+    disabledChildren (recordCalls [] cs) children = children := by
+  unfold disabledChildren
+  rw [List.filter_eq_self]
+  intro c _
+  rw [C12_streamline_required_iff]
+  unfold requiredBy
+  simp only [Bool.not_eq_true', List.any_eq_false]
+  intro call hc
+  have : call.qinput = false := by
+    unfold FnCall.qinput
+    simpa using h call hc
+  simp [this]
+
+/-- non-vacuity: module 1 feeds a function that returns a quantized tensor, module 2 only functions
+that return plain tensors, module 3 feeds nothing: 2 and 3 are disabled -/
+example : disabledChildren (recordCalls [] [⟨[1], true, ["QTensor"]⟩, ⟨[2], false, ["QTensor"]⟩, ⟨[1, 2], false, ["QTensor"]⟩]) [1, 2, 3] = [2, 3] := by
+  decide
+
+/-- the same calls with the classes quanto's tensors really have: everything is disabled -/
+example : disabledChildren (recordCalls [] [⟨[1], true, ["QBytesTensor"]⟩, ⟨[2], false, ["QBytesTensor"]⟩]) [1, 2, 3] = [1, 2, 3] :=
+  C12_streamline_subclass_arguments_record_nothing _ (by decide) _
 
 /-! ### non-vacuity -/
 
